@@ -22,7 +22,7 @@ import (
 )
 
 func TestC22(t *testing.T) {
-	harness.Main(t, harness.Check{Prop: "C22", Exec: exec, ShrinkBudget: 400})
+	harness.Main(t, harness.Check{Prop: "C22", Exec: exec, ShrinkBudget: 400, Retries: 6})
 }
 
 // decl is a distinguishable declaration value.
@@ -193,10 +193,22 @@ func checkPackage(r *harness.Run, root *node, desc string) *harness.Violation {
 		}
 	}
 
-	// LookupFunc: fault-free, then every fault point with both kinds.
+	// LookupFunc: fault-free, then every fault point with both kinds. The
+	// iteration order of a map-backed Package is Go's (the contract says
+	// "lookup order is undefined") and cannot be put behind a seam without
+	// rewriting the library, so every fault point is repeated: which name is
+	// the k-th call varies between repetitions. The oracle does not depend on
+	// the order; the repetitions only widen what a single run explores.
 	distinct := len(model)
+	reps := 1
+	if distinct > 1 {
+		reps = 10
+	}
 	for k := 0; k <= distinct+1; k++ {
-		for kind := 0; kind < 2; kind++ {
+		for kind := 0; kind < 2*reps; kind++ {
+			rep := kind / 2
+			kind := kind % 2
+			_ = rep
 			if k == 0 && kind == 1 {
 				continue
 			}
